@@ -265,7 +265,8 @@ def len2(rep, prog):
     try:
         md = prog.one(name="deserialize", self_name="Message", crate="statime-lib")
         pv = df.Prov(md)
-        window = re.compile(r"get\(buffer, Range\{start: 34, end: cast<usize>\(.*?message_length\)\}\)")
+        # the end of the window is the declared length, widened to usize by any lossless conversion (as / from / into)
+        window = re.compile(r"get\(buffer, Range\{start: 34, end: (?:cast<usize>|from|into)\(.*?message_length\)\}\)")
         for bi, t, cal in mir.iter_calls(md, name="deserialize"):
             key = cal.get("resolved") or cal["key"]
             if "MessageBody" in key:
